@@ -47,6 +47,9 @@ func c17Cases(tier string, seed int64) []core.Case {
 			cases = append(cases, core.Case{ID: fmt.Sprintf("seq/%d/dotu=%v", i, dotu), Run: func(ctx *core.Ctx) core.Result { return c17Run(ctx, i, dotu, steps) }})
 		}
 	}
+	for i := range cases {
+		cases[i].Run = guarded("C17", cases[i].Run)
+	}
 	return cases
 }
 
@@ -515,16 +518,37 @@ func c17Run(ctx *core.Ctx, idx int, dotu bool, steps int) core.Result {
 			}
 			st := noTouch()
 			st.Name = wname
+			// one Twstat may carry several changes: a new name together with a new length and/or mode
+			// (the twin does them one after the other: chmod, rename, truncate of the new name)
+			combLen, combMode := -1, -1
+			if sfi, _ := os.Lstat(filepath.Join(twin, p)); sfi != nil && sfi.Mode().IsRegular() && argc != "" && !strings.HasPrefix(argc, "occupied") && r.Intn(2) == 0 {
+				combLen = []int{0, int(sfi.Size()) / 2, int(sfi.Size()) + 5, 12}[r.Intn(4)]
+				st.Length = uint64(combLen)
+				argc += "+length"
+				if r.Intn(3) == 0 {
+					combMode = []int{0o640, 0o600, 0o755}[r.Intn(3)]
+					st.Mode = uint32(combMode)
+					argc += "+mode"
+				}
+			}
 			rep = rw.rpc(&wire.Msg{Type: wire.Twstat, Fid: fid, Stat: st})
-			perr = syscall.Rename(filepath.Join(twin, p), filepath.Join(twin, destRel))
+			if combMode >= 0 {
+				perr = os.Chmod(filepath.Join(twin, p), os.FileMode(combMode))
+			}
+			if perr == nil {
+				perr = syscall.Rename(filepath.Join(twin, p), filepath.Join(twin, destRel))
+			}
+			if perr == nil && combLen >= 0 {
+				perr = os.Truncate(filepath.Join(twin, destRel), int64(combLen))
+			}
 			if perr == nil {
 				created = destRel
 				// the name carries the source's mtime along; what was at the destination is gone
 				was := mtimes[p]
 				delete(mtimes, p)
 				delete(mtimes, destRel)
-				if was {
-					mtimes[destRel] = true
+				if was && combLen < 0 {
+					mtimes[destRel] = true // (a truncation sets the time to now)
 				}
 				for k := range mtimes {
 					if strings.HasPrefix(k, p+"/") || strings.HasPrefix(k, destRel+"/") {
